@@ -12,7 +12,7 @@ git apply SEEDED/patch$N.diff
 echo "== with change:"; go test -count=1 -run "TestSeedDemo$N\$" ./$PKG 2>&1 | tail -2
 rm -f $PKG/zz_seed_demo_test.go
 echo "== existing tests of the package with the change:"; go test -count=1 ./$PKG 2>&1 | tail -2
-go build ./... && echo build-ok
+go build ./pkg/... ./api/... . && echo build-ok
 git checkout -q -- .
 mkdir -p /verif/seeded/$ID
 cp SEEDED/patch$N.diff /verif/seeded/$ID/patch.diff
